@@ -114,6 +114,7 @@ func checkWrite(c writeCase) *vt.Fail {
 			os.WriteFile(filepath.Join(target, f.Name), f.Data, 0o666)
 		}
 	}
+	var links []string
 	for _, l := range c.PreL {
 		to := string(l.Data)
 		if st, err := os.Stat(filepath.Join(filepath.Dir(filepath.Join(target, l.Name)), to)); err == nil && st.IsDir() {
@@ -121,7 +122,9 @@ func checkWrite(c writeCase) *vt.Fail {
 		}
 		if safeRel(l.Name) && to != "" && !strings.ContainsAny(to, "\x00\n") && len(to) < 100 {
 			os.MkdirAll(filepath.Dir(filepath.Join(target, l.Name)), 0o777)
-			os.Symlink(to, filepath.Join(target, l.Name))
+			if os.Symlink(to, filepath.Join(target, l.Name)) == nil {
+				links = append(links, filepath.Join(target, l.Name))
+			}
 		}
 	}
 	a := &txtar.Archive{}
@@ -180,6 +183,15 @@ func checkWrite(c writeCase) *vt.Fail {
 		return nil
 	}
 	after := snap(sbx)
+	for _, l := range links {
+		if st, err := os.Stat(l); err == nil && st.IsDir() {
+			// a link that led nowhere at the start leads to a directory now - one that an entry of the archive created
+			// inside the target: entries below the link's name were written through it. Links to directories are outside
+			// what is judged here (see PreL), also when they only become such on the way.
+			rec.Class("write:link-became-a-directory-skipped", 1)
+			return nil
+		}
+	}
 	// also look one level above the sandbox for stray files named like entries
 	for k, v := range before {
 		w, ok := after[k]
